@@ -7,7 +7,7 @@ def key() -> bytes:
     """
     Generate a private key
     """
-    return secrets.randbelow(bits.ecmath.SECP256K1_N).to_bytes(32, "big")
+    return (secrets.randbelow(bits.ecmath.SECP256K1_N - 1) + 1).to_bytes(32, "big")
 
 
 def pub(privkey: bytes, compressed: bool = False) -> bytes:
